@@ -440,6 +440,10 @@ STATE_KINDS = {
                                                       velocity=real(V, n + "_v", -100, 100), acceleration=real(V, n + "_a", -20, 20)),
     "Custom": lambda V, n, t: st.CustomState(time_step=t, position=np.array([real(V, n + "_x"), real(V, n + "_y")]), orientation=real(V, n + "_th", -TWO_PI, TWO_PI),
                                               velocity=real(V, n + "_v", -100, 100), jerk=real(V, n + "_jerk", -10, 10)),
+    # attributes of the multi-body model whose XML names carry two capitals in a row (velocityYFront, positionZRear)
+    "CustomMB": lambda V, n, t: st.CustomState(time_step=t, position=np.array([real(V, n + "_x"), real(V, n + "_y")]), orientation=real(V, n + "_th", -TWO_PI, TWO_PI),
+                                                velocity=real(V, n + "_v", -100, 100), velocity_y_front=real(V, n + "_vyf", -10, 10),
+                                                position_z_rear=real(V, n + "_pzr", -1, 1), yaw_rate=real(V, n + "_yaw", -5, 5)),
 }
 
 
@@ -532,7 +536,10 @@ def sk_uncertain(V):
     vlo, vhi = real(V, "v_lo", -50, 50), real(V, "v_hi", -50, 50)
     V.assume(vlo <= vhi)
     region = Rectangle(real(V, "region_len", 1e-6, 100), real(V, "region_wid", 1e-6, 100), np.array([real(V, "region_cx"), real(V, "region_cy")]), 0.25)
-    init = st.InitialState(time_step=t0, position=region, orientation=AngleInterval(lo, hi), velocity=Interval(vlo, vhi),
+    # (the library computes the enclosing occupancy of an uncertain state when the obstacle is built: with a rectangular region AND a
+    #  symbolic heading that is a rotation by a symbolic angle - nonlinear arithmetic unrelated to the file format; the rectangular
+    #  region therefore comes with a concrete orientation interval, the symbolic interval with the circular region of the next state)
+    init = st.InitialState(time_step=t0, position=region, orientation=AngleInterval(-0.5, 0.75), velocity=Interval(vlo, vhi),
                            acceleration=0.5, yaw_rate=0.0, slip_angle=0.0)
     s1 = st.KSState(time_step=t0 + 1, position=mk_shape(V, "circle", "region1"), orientation=AngleInterval(lo, hi), velocity=Interval(vlo, vhi),
                     steering_angle=Interval(-0.5, 0.25))
